@@ -34,7 +34,7 @@ GenCfg == CfgOf(1)
 Rec5(r) == [owner |-> r.owner, ttl |-> r.ttl, class |-> r.class, type |-> r.type, rdata |-> r.rdata]
 GenVector(g) ==
   LET s0 == StartP(GenCfg, [io |-> FALSE, it |-> FALSE, go |-> FALSE, gt |-> FALSE])
-      bad == ~GenRangeOK(g) \/ GenCount(g) > MaxGen
+      bad == ~GenRangeOK(g) \/ GenTooMany(g)
       n == IF bad THEN 0 ELSE GenCount(g)
       js == IF n <= 12 THEN 1..n ELSE {1, 2, 3, n \div 2, n - 2, n - 1, n}
       one(j) == LET gl == GenLine(g, g.lo + (j - 1) * g.step) IN
@@ -46,9 +46,10 @@ GenVector(g) ==
       sample |-> IF bad \/ sts # {"ok"} THEN <<>>
                  ELSE LET sq == SetAsSeq(js) IN [i \in 1..Len(sq) |-> [j |-> sq[i], rec |-> Rec5(rs[sq[i]].rec)]]]
 
-ZoneVector(c, ls) ==
+\* given: a spelling supplied with the case (Mode "file"), replayed in addition to the harness' own
+ZoneVector(c, ls, given) ==
   [kind |-> "zone", cfg |-> c, lines |-> ls, outs |-> SetAsSeq(Denotations(c, ls)),
-   explicit |-> Explicit(c, ls), minimal |-> Minimal(c, ls)]
+   explicit |-> Explicit(c, ls), minimal |-> Minimal(c, ls), given |-> given]
 
 Init ==
   /\ ZInit(CfgOf(0)) /\ pol = [io |-> FALSE, it |-> FALSE, go |-> FALSE, gt |-> FALSE]
@@ -59,8 +60,8 @@ Init ==
 Next == UNCHANGED <<v, zvars>>
 
 Out ==
-  CASE Mode = "seq"  -> Emit(ZoneVector(CfgOf(v[1]), [i \in 1..(Len(v) - 1) |-> Shapes[v[i + 1]]]))
-    [] Mode = "idx"  -> Emit(ZoneVector(CfgOf(Cases[v].c), [i \in 1..Len(Cases[v].q) |-> Shapes[Cases[v].q[i]]]))
-    [] Mode = "file" -> Emit(ZoneVector(Cases[v].cfg, Cases[v].lines))
+  CASE Mode = "seq"  -> Emit(ZoneVector(CfgOf(v[1]), [i \in 1..(Len(v) - 1) |-> Shapes[v[i + 1]]], <<>>))
+    [] Mode = "idx"  -> Emit(ZoneVector(CfgOf(Cases[v].c), [i \in 1..Len(Cases[v].q) |-> Shapes[Cases[v].q[i]]], <<>>))
+    [] Mode = "file" -> Emit(ZoneVector(Cases[v].cfg, Cases[v].lines, IF "text" \in DOMAIN Cases[v] THEN Cases[v].text ELSE <<>>))
     [] Mode = "gen"  -> Emit(GenVector(GenLineOf(v)))
 =============================================================================
